@@ -4,6 +4,8 @@ mod elfrun;
 mod insn;
 mod interp;
 mod native;
+mod prog;
+mod table8;
 
 #[global_allocator]
 static GLOBAL: elfrun::Counting = elfrun::Counting;
@@ -62,6 +64,28 @@ fn main() {
             let skip = if args.len() >= 6 && args[4] == "--skip" { args[5].parse().unwrap_or(0) } else { 0 };
             interp::start_watchdog(8);
             if let Err(e) = elfrun::run(&args[2], &args[3], skip) {
+                eprintln!("axv: io error: {e}");
+                std::process::exit(2);
+            }
+        }
+        "table8" => {
+            // axv table8 <table.ndjson> <forms.json> <out.ndjson> [threads]
+            if args.len() < 5 {
+                usage();
+            }
+            let th: usize = args.get(5).and_then(|s| s.parse().ok()).unwrap_or(8);
+            if let Err(e) = table8::run(&args[2], &args[3], &args[4], th) {
+                eprintln!("axv: io error: {e}");
+                std::process::exit(2);
+            }
+        }
+        "prog" => {
+            // axv prog <n_programs> <len> <seed> <forms.json> <out.ndjson>
+            if args.len() < 7 {
+                usage();
+            }
+            interp::start_watchdog(20);
+            if let Err(e) = prog::run(args[2].parse().unwrap_or(1), args[3].parse().unwrap_or(8), args[4].parse().unwrap_or(1), &args[5], &args[6]) {
                 eprintln!("axv: io error: {e}");
                 std::process::exit(2);
             }
